@@ -202,6 +202,15 @@ class Kinds:
                 base = self.eval(fn.value, ctx, env, frame)
                 if U not in base:
                     return base
+        # a callable held in an instance attribute (user supplied hook such
+        # as Queue.backoff): the statically known default is not the only
+        # possible callee
+        if isinstance(fn, ast.Attribute) and res.targets and \
+                not res.ctor_of:
+            for rt in e.r.infer(fn.value, ctx):
+                if rt[0] == 'inst' and rt[1] in e.p.classes and \
+                        e.p.lookup_method(rt[1], fn.attr) is None:
+                    out.add(U)
         for cq in res.ctor_of:
             out.add(self.class_kind(cq))
         for t in res.targets:
